@@ -36,5 +36,17 @@ func EdgeDocs() [][]byte {
 	}
 	// every construct cut after every byte, in every context
 	edgeDocs = append(edgeDocs, TruncDocs()...)
+	// pairs of delimiter runs of every combination of lengths around the sizes
+	// at which a table indexed by run length would end (a run that opens, text,
+	// a run of another length, text, a run of the first length again)
+	lens := []int{1, 2, 3, 4, 31, 32, 33, 34, 63, 64, 65, 127, 128, 129}
+	for _, u := range []string{"`", "*", "_", "~"} {
+		for _, n := range lens {
+			for _, m := range lens {
+				a, b := strings.Repeat(u, n), strings.Repeat(u, m)
+				edgeDocs = append(edgeDocs, []byte(a+"x"+b), []byte("w "+a+"x"+b+" y "+a+" z\n"), []byte("> "+a+"x\n> "+b+"\n"))
+			}
+		}
+	}
 	return edgeDocs
 }
